@@ -119,7 +119,20 @@ pub struct Tokens {
 
 impl Tokens {
     pub fn new() -> Self {
-        Tokens { devnull: std::fs::File::open("/dev/null").unwrap(), by_fd: HashMap::new(), next: 1 }
+        // the template descriptor is kept at a number >= 3, so that when the suite has closed descriptor 0
+        // (a daemon started with stdin closed) the first token of a case gets the NUMBER 0
+        let f = std::fs::File::open("/dev/null").unwrap();
+        let f = if f.as_raw_fd() < 3 {
+            // SAFETY: duplicating a valid descriptor to a number >= 3
+            let hi = unsafe { libc::fcntl(f.as_raw_fd(), libc::F_DUPFD_CLOEXEC, 3) };
+            assert!(hi >= 3, "F_DUPFD failed");
+            drop(f);
+            // SAFETY: `hi` is a fresh descriptor owned by nobody else
+            unsafe { <std::fs::File as std::os::unix::io::FromRawFd>::from_raw_fd(hi) }
+        } else {
+            f
+        };
+        Tokens { devnull: f, by_fd: HashMap::new(), next: 1 }
     }
     pub fn fresh(&mut self) -> (usize, RawFd) {
         // SAFETY: dup of a valid descriptor
